@@ -118,6 +118,7 @@ inline i_de::const_iterator i_de::end() const
 ///
 inline i_de::iterator i_de::begin()
 {
+  signature_.clear();  // mutable access, same policy as `operator[]`
   return genome_.begin();
 }
 
@@ -126,6 +127,7 @@ inline i_de::iterator i_de::begin()
 ///
 inline i_de::iterator i_de::end()
 {
+  signature_.clear();  // mutable access, same policy as `operator[]`
   return genome_.end();
 }
 
